@@ -43,6 +43,16 @@ CHECKS = {
          "Coq model for all shapes <= 6x6x3 (quick) / 8x8x4 + random up to 40x40x6 (thorough), plus an independent geometric oracle.",
     ref="6 C09", technique="Rocq proof (lia/nia, mixed-radix uniqueness) + exhaustive-small correspondence by vm_compute",
     note=TB % "c09" + "np.diag/csr semantics modelled by `sym`; closed-form pattern predicates instead of the slice assignments."),
+ "C10": dict(
+    cat="proof",
+    text="Theorems (props/C10.v): cnt is the last index of the 1 s profile at or above cnTemp and, the profile being non-increasing (C05), the shelf is at or "
+         "above cnTemp at every earlier second for every admissible program; k_CN is the first step at or after cnt; at that step every liquid supercooled "
+         "vial nucleates for any draw and at every other step the decision is the plain rate-law comparison; the first k_CN+1 stored columns depend only on the "
+         "decisions before k_CN (run identical to the run without CN, generic in the number type). The 'end of the hold within one second per segment' clause "
+         "rests on C05's per-segment S6/S7 lemmas and is checked by the oracle against the continuous program. Tied to the code by cnt correspondence (binary64 "
+         "model), run pairs with/without cnTemp (bit-identical prefix, fired set, times) and scripted lockstep runs.",
+    ref="6 C10", technique="Rocq proof (last-index search, first-crossing search, prefix determinism of the run) + float correspondence of cnt + paired-run and lockstep oracles",
+    note=TB % "c10" + "end-of-hold timing is a composition of C05 S6/S7 (partial there); cnTemp is taken between end and start temperature."),
  "C12": dict(
     cat="proof",
     text="Theorem by induction over the steps of the run model (props/C12.v): for every vial the recorded nucleation time is (j+1)dt for the first "
